@@ -1,5 +1,6 @@
 import EAO.Model.OrderBook
 import EAO.Model.Readout
+import EAO.Lemmas.Textbook
 /-!
 Helper lemmas for C20 (order book).  Self-contained (core Lean only); everything lives in the
 namespace `EAO.OrderBook` so that names cannot clash with other lemma files.
@@ -477,3 +478,342 @@ theorem costAt_map_zipIdx (f : Order → Rat) (y : Vec) (os : List Order) : ∀ 
     rw [ih (k + 1)]
 
 end EAO.OrderBook
+
+/-! ## Generic part: boolean flags under assembly, `RefinesBool`, composition for `Problem.Feasible`
+
+Declared in the namespace `EAO.Textbook` (next to `Refines`, `portfolio_core`), but kept in this file so that
+`EAO/Lemmas/Textbook.lean` stays untouched.  Nothing here is specific to order books. -/
+namespace EAO.Textbook
+open EAO EAO.Perm
+
+/-! ### boolean flags: composition (generic; used by C20 `order_refines_portfolio_full`) -/
+
+/-- the variables `OptimProblem.optimize` declares boolean, read off a mapping (`Problem.boolVars`) -/
+def bvars (M : List MapRow) : List Nat := ((firstRows M []).filter (·.isBool)).map (·.var)
+
+theorem boolVars_eq_bvars (P : Problem) : P.boolVars = bvars P.mapping := rfl
+
+/-- every mapping row (of whatever type) points at one of the asset's own variables -/
+def MapInRange (a : AssetProblem) : Prop := ∀ m ∈ a.mapping, m.var < a.n
+
+theorem mem_firstRows_iff (M : List MapRow) : ∀ (seen : List Nat) (m : MapRow),
+    m ∈ firstRows M seen ↔ (seen.contains m.var = false ∧ M.find? (fun r => r.var == m.var) = some m) := by
+  induction M with
+  | nil => intro seen m; simp [firstRows]
+  | cons a M ih =>
+    intro seen m
+    by_cases hv : a.var = m.var
+    · have hbeq : (a.var == m.var) = true := by simp [hv]
+      cases hs : seen.contains a.var with
+      | true =>
+        have hs' : seen.contains m.var = true := by rw [← hv]; exact hs
+        simp only [firstRows, hs, if_true, List.find?_cons, hbeq]
+        rw [ih seen m, hs']
+        simp
+      | false =>
+        have hs' : seen.contains m.var = false := by rw [← hv]; exact hs
+        have hc : (a.var :: seen).contains m.var = true := by
+          rw [List.contains_iff_mem]; rw [hv]; exact List.mem_cons_self
+        simp only [firstRows, hs, Bool.false_eq_true, if_false, List.find?_cons, hbeq, List.mem_cons]
+        rw [ih (a.var :: seen) m, hc, hs']
+        simp
+        exact eq_comm
+    · have hbeq : (a.var == m.var) = false := by simpa using hv
+      have hne : m ≠ a := fun e => hv (by rw [e])
+      cases hs : seen.contains a.var with
+      | true =>
+        simp only [firstRows, hs, if_true, List.find?_cons, hbeq]
+        exact ih seen m
+      | false =>
+        have hc : (a.var :: seen).contains m.var = seen.contains m.var := by
+          rw [Bool.eq_iff_iff, List.contains_iff_mem, List.contains_iff_mem, List.mem_cons]
+          constructor
+          · rintro (h | h)
+            · exact absurd h.symm hv
+            · exact h
+          · exact Or.inr
+        simp only [firstRows, hs, Bool.false_eq_true, if_false, List.find?_cons, hbeq, List.mem_cons]
+        rw [ih (a.var :: seen) m, hc]
+        simp [hne]
+
+theorem mem_bvars_iff (M : List MapRow) (j : Nat) :
+    j ∈ bvars M ↔ ∃ m, M.find? (fun r => r.var == j) = some m ∧ m.isBool = true := by
+  simp only [bvars, List.mem_map, List.mem_filter]
+  constructor
+  · rintro ⟨m, ⟨hm, hb⟩, rfl⟩
+    exact ⟨m, ((mem_firstRows_iff M [] m).mp hm).2, hb⟩
+  · rintro ⟨m, hf, hb⟩
+    have hv : m.var = j := by simpa using List.find?_some hf
+    subst hv
+    exact ⟨m, ⟨(mem_firstRows_iff M [] m).mpr ⟨by simp, hf⟩, hb⟩, rfl⟩
+
+theorem mem_bvars_var (M : List MapRow) (j : Nat) (h : j ∈ bvars M) : ∃ m ∈ M, m.var = j := by
+  obtain ⟨m, hf, _⟩ := (mem_bvars_iff M j).mp h
+  exact ⟨m, List.mem_of_find?_eq_some hf, by simpa using List.find?_some hf⟩
+
+/-- blocks of mapping rows over disjoint sets of variables: the boolean variables are those of the blocks -/
+theorem mem_bvars_append (A R : List MapRow) (hd : ∀ m ∈ A, ∀ r ∈ R, m.var ≠ r.var) (j : Nat) :
+    j ∈ bvars (A ++ R) ↔ j ∈ bvars A ∨ j ∈ bvars R := by
+  simp only [mem_bvars_iff, List.find?_append]
+  constructor
+  · rintro ⟨m, hf, hb⟩
+    cases hA : A.find? (fun r => r.var == j) with
+    | some a =>
+      rw [hA] at hf
+      simp at hf
+      subst hf
+      exact Or.inl ⟨a, rfl, hb⟩
+    | none =>
+      rw [hA] at hf
+      simp at hf
+      exact Or.inr ⟨m, hf, hb⟩
+  · rintro (⟨m, hf, hb⟩ | ⟨m, hf, hb⟩)
+    · exact ⟨m, by rw [hf]; rfl, hb⟩
+    · have hA : A.find? (fun r => r.var == j) = none := by
+        rw [List.find?_eq_none]
+        intro a ha hp
+        have h1 : a.var = j := by simpa using hp
+        have h2 : m.var = j := by simpa using List.find?_some hf
+        exact hd a ha m (List.mem_of_find?_eq_some hf) (by rw [h1, h2])
+      exact ⟨m, by rw [hA]; simpa using hf, hb⟩
+
+theorem mem_bvars_shift (A : List MapRow) (off j : Nat) :
+    j ∈ bvars (A.map (MapRow.shift off)) ↔ ∃ k ∈ bvars A, j = off + k := by
+  simp only [mem_bvars_iff, List.find?_map]
+  constructor
+  · rintro ⟨m, hf, hb⟩
+    cases hA : A.find? ((fun r => r.var == j) ∘ MapRow.shift off) with
+    | none => rw [hA] at hf; simp at hf
+    | some a =>
+      rw [hA] at hf
+      simp at hf
+      subst hf
+      have hp := List.find?_some hA
+      have hj : off + a.var = j := by simpa [MapRow.shift] using hp
+      refine ⟨a.var, ⟨a, ?_, hb⟩, hj.symm⟩
+      have hcongr : ((fun r : MapRow => r.var == j) ∘ MapRow.shift off) = fun r => r.var == a.var := by
+        funext r
+        simp only [Function.comp, MapRow.shift, ← hj]
+        rw [Bool.eq_iff_iff]; simp
+      rw [hcongr] at hA
+      exact hA
+  · rintro ⟨k, ⟨a, hf, hb⟩, rfl⟩
+    have hcongr : ((fun r : MapRow => r.var == off + k) ∘ MapRow.shift off) = fun r => r.var == k := by
+      funext r
+      simp only [Function.comp, MapRow.shift]
+      rw [Bool.eq_iff_iff]; simp
+    exact ⟨a.shift off, by rw [hcongr, hf]; rfl, hb⟩
+
+theorem assembleFrom_var_ge (as : List AssetProblem) : ∀ (off : Nat) (m : MapRow),
+    m ∈ (assembleFrom off as).mapping → off ≤ m.var := by
+  induction as with
+  | nil => intro off m hm; simp [assembleFrom] at hm
+  | cons a as ih =>
+    intro off m hm
+    rw [assembleFrom_cons_mapping, List.mem_append] at hm
+    rcases hm with hm | hm
+    · obtain ⟨m', _, rfl⟩ := List.mem_map.mp hm
+      simp [MapRow.shift]
+    · have := ih _ m hm
+      omega
+
+/-- (a) the boolean variables of the concatenation are those of the assets, shifted by the offsets -/
+theorem mem_bvars_assembleFrom (as : List AssetProblem) : ∀ (off : Nat), (∀ a ∈ as, MapInRange a) → ∀ j,
+    (j ∈ bvars (assembleFrom off as).mapping ↔
+      ∃ i, ∃ h : i < as.length, ∃ k ∈ bvars (as[i]).mapping, j = off + blockOffset as i + k) := by
+  induction as with
+  | nil =>
+    intro off _ j
+    simp [assembleFrom, bvars, firstRows]
+  | cons a as ih =>
+    intro off hr j
+    have hra : MapInRange a := hr a List.mem_cons_self
+    have hras : ∀ b ∈ as, MapInRange b := fun b hb => hr b (List.mem_cons_of_mem _ hb)
+    rw [assembleFrom_cons_mapping, mem_bvars_append, mem_bvars_shift, ih (off + a.n) hras j]
+    · constructor
+      · rintro (⟨k, hk, rfl⟩ | ⟨i, hi, k, hk, rfl⟩)
+        · exact ⟨0, by simp, k, by simpa using hk, by simp⟩
+        · exact ⟨i + 1, by simpa using hi, k, by simpa using hk, by simp; omega⟩
+      · rintro ⟨i, hi, k, hk, rfl⟩
+        cases i with
+        | zero => exact Or.inl ⟨k, by simpa using hk, by simp⟩
+        | succ i =>
+          exact Or.inr ⟨i, by simpa using hi, k, by simpa using hk, by simp; omega⟩
+    · intro m hm r hrr
+      obtain ⟨m', hm', rfl⟩ := List.mem_map.mp hm
+      have h1 := hra m' hm'
+      have h2 := assembleFrom_var_ge as (off + a.n) r hrr
+      simp only [MapRow.shift]
+      omega
+
+theorem assemble_mapping_eq (as : List AssetProblem) (gridI : List Nat) (skip : List String) :
+    (assemble as gridI skip).mapping = (assembleFrom 0 as).mapping := rfl
+
+/-- (a), for the assembled problem: `x` is feasible with the boolean flags iff it is relaxed-feasible and
+    every asset's boolean variables are 0/1 on its block -/
+theorem feasible_bool_iff (as : List AssetProblem) (gridI : List Nat) (skip : List String)
+    (hr : ∀ a ∈ as, MapInRange a) (x : Vec) :
+    (assemble as gridI skip).Feasible x ↔
+      (assemble as gridI skip).FeasibleRelaxed x ∧
+      ∀ i, (h : i < as.length) → ∀ k ∈ bvars (as[i]).mapping,
+        x (blockOffset as i + k) = 0 ∨ x (blockOffset as i + k) = 1 := by
+  unfold Problem.Feasible
+  rw [boolVars_eq_bvars, assemble_mapping_eq]
+  constructor
+  · rintro ⟨h1, h2⟩
+    refine ⟨h1, fun i hi k hk => h2 _ ?_⟩
+    exact (mem_bvars_assembleFrom as 0 hr _).mpr ⟨i, hi, k, hk, by simp⟩
+  · rintro ⟨h1, h2⟩
+    refine ⟨h1, fun j hj => ?_⟩
+    obtain ⟨i, hi, k, hk, rfl⟩ := (mem_bvars_assembleFrom as 0 hr j).mp hj
+    simpa using h2 i hi k hk
+
+/-! ### (b) refinement with boolean flags and its composition -/
+
+/-- the pairs an asset problem realises with its boolean flags enforced (`y` within bounds and rows, 0/1 on the
+    variables its mapping flags boolean) -/
+def attainEAOBool (a : AssetProblem) : AssetSem :=
+  ⟨fun fl c => ∃ y, a.FeasibleRelaxed y ∧ (∀ j ∈ bvars a.mapping, y j = 0 ∨ y j = 1) ∧
+      (∀ n t, fl n t = flowOf a n t y) ∧ c = - costAt a.c 0 y⟩
+
+/-- like `Refines`, for the asset's own problem with its boolean flags -/
+def RefinesBool (a : AssetProblem) (S : AssetSem) : Prop :=
+  Dominated S (attainEAOBool a) ∧ Dominated (attainEAOBool a) S
+
+theorem attainEAOBool_of_no_bools (a : AssetProblem) (h : bvars a.mapping = []) (fl : Flows) (c : Rat) :
+    (attainEAOBool a).Attain fl c ↔ (attainEAO a).Attain fl c := by
+  constructor
+  · rintro ⟨y, hy, _, hfl, hc⟩
+    exact ⟨y, hy, hfl, hc⟩
+  · rintro ⟨y, hy, hfl, hc⟩
+    exact ⟨y, hy, (by rw [h]; intro j hj; cases hj), hfl, hc⟩
+
+/-- for an asset without boolean variables (every LP asset) `RefinesBool` is `Refines` -/
+theorem refinesBool_iff_refines (a : AssetProblem) (S : AssetSem) (h : bvars a.mapping = []) :
+    RefinesBool a S ↔ Refines a S := by
+  unfold RefinesBool Refines Dominated
+  constructor
+  · rintro ⟨h1, h2⟩
+    refine ⟨fun fl c hs => ?_, fun fl c hs => h2 fl c ((attainEAOBool_of_no_bools a h fl c).mpr hs)⟩
+    obtain ⟨c', hc', hat⟩ := h1 fl c hs
+    exact ⟨c', hc', (attainEAOBool_of_no_bools a h fl c').mp hat⟩
+  · rintro ⟨h1, h2⟩
+    refine ⟨fun fl c hs => ?_, fun fl c hs => h2 fl c ((attainEAOBool_of_no_bools a h fl c).mp hs)⟩
+    obtain ⟨c', hc', hat⟩ := h1 fl c hs
+    exact ⟨c', hc', (attainEAOBool_of_no_bools a h fl c').mpr hat⟩
+
+/-- **composition principle with boolean flags** (lemma form of `portfolio_refines` for `Problem.Feasible`) -/
+theorem portfolio_core_bool (as : List AssetProblem) (sems : List AssetSem) (hlen : sems.length = as.length)
+    (gridI : List Nat) (skip : List String)
+    (hl : ∀ a ∈ as, a.l.length = a.n ∧ a.u.length = a.n)
+    (hdisp : ∀ a ∈ as, ∀ m ∈ a.mapping, ∀ n, m.kind = .d → m.node = some n → n ∈ a.nodes ∧ m.step ∈ gridI)
+    (hcols : ∀ a ∈ as, ∀ r ∈ a.rows, ∀ p ∈ r.coeffs, p.1 < a.n)
+    (hrange : ∀ a ∈ as, MapInRange a)
+    (href : ∀ i, (h : i < as.length) → RefinesBool (as[i]) (sems[i]'(by omega))) :
+    (∀ x, (assemble as gridI skip).Feasible x →
+      ∃ V, (assemble as gridI skip).value x ≤ V ∧
+        portfolioAttain sems skip
+          (fun i n t => flowOf (as.getD i default) n t (fun j => x (blockOffset as i + j))) V) ∧
+    (∀ fl V, portfolioAttain sems skip fl V →
+      ∃ x, (assemble as gridI skip).Feasible x ∧ V ≤ (assemble as gridI skip).value x ∧
+        ∀ i, i < as.length → ∀ n t,
+          flowOf (as.getD i default) n t (fun j => x (blockOffset as i + j)) = fl i n t) := by
+  have hvars : ∀ a ∈ as, ∀ m ∈ a.mapping, m.kind = .d → m.var < a.n := fun a ha m hm _ => hrange a ha m hm
+  constructor
+  · intro x hxb
+    obtain ⟨hx, hbool⟩ := (feasible_bool_iff as gridI skip hrange x).mp hxb
+    obtain ⟨hfeas, hbal⟩ := (feasible_iff as gridI skip hl hdisp x).mp hx
+    have hex : ∀ i, ∃ c' : Rat, (h : i < as.length) →
+        - costAt (as.getD i default).c 0 (fun j => x (blockOffset as i + j)) ≤ c' ∧
+        (sems[i]'(by omega)).Attain
+          (fun n t => flowOf (as.getD i default) n t (fun j => x (blockOffset as i + j))) c' := by
+      intro i
+      by_cases hi : i < as.length
+      · have hat : (attainEAOBool (as[i])).Attain
+            (fun n t => flowOf (as.getD i default) n t (fun j => x (blockOffset as i + j)))
+            (- costAt (as.getD i default).c 0 (fun j => x (blockOffset as i + j))) := by
+          refine ⟨fun j => x (blockOffset as i + j), hfeas i hi, hbool i hi, ?_, ?_⟩
+          · intro n t; rw [getD_of_lt as i default hi]
+          · rw [getD_of_lt as i default hi]
+        obtain ⟨c', hc', hs⟩ := (href i hi).2 _ _ hat
+        exact ⟨c', fun _ => ⟨hc', hs⟩⟩
+      · exact ⟨0, fun h => absurd h hi⟩
+    obtain ⟨c, hc⟩ := Classical.axiomOfChoice hex
+    refine ⟨sumN c sems.length, ?_, c, ?_, ?_, rfl⟩
+    · rw [value_eq, hlen]
+      exact sumN_le _ _ _ (fun j hj => (hc j hj).1)
+    · intro i hi
+      exact (hc i (by omega)).2
+    · intro n hs t
+      rw [hlen]
+      exact hbal n hs t
+  · rintro fl V ⟨c, hat, hbal, rfl⟩
+    have hex : ∀ i, ∃ y : Vec, (h : i < as.length) →
+        (as[i]).FeasibleRelaxed y ∧ (∀ j ∈ bvars (as[i]).mapping, y j = 0 ∨ y j = 1) ∧
+        (∀ n t, fl i n t = flowOf (as[i]) n t y) ∧ c i ≤ - costAt (as[i]).c 0 y := by
+      intro i
+      by_cases hi : i < as.length
+      · obtain ⟨c', hc', y, hy, hyb, hfl, rfl⟩ := (href i hi).1 _ _ (hat i (by omega))
+        exact ⟨y, fun _ => ⟨hy, hyb, hfl, hc'⟩⟩
+      · exact ⟨fun _ => 0, fun h => absurd h hi⟩
+    obtain ⟨ys, hys⟩ := Classical.axiomOfChoice hex
+    let L : List (AssetProblem × Vec) := (List.range as.length).map fun i => (as.getD i default, ys i)
+    have hLlen : L.length = as.length := by simp [L]
+    have hmap : L.map (·.1) = as := by
+      apply List.ext_getElem
+      · simp [L]
+      · intro i h1 h2
+        simp [L, h2]
+    have hLi : ∀ i (hi : i < L.length), L[i] = (as.getD i default, ys i) := by
+      intro i hi; simp [L]
+    have hLmem : ∀ p ∈ L, ∃ i, ∃ h : i < as.length, p = (as[i], ys i) := by
+      intro p hp
+      obtain ⟨i, hi, rfl⟩ := List.mem_map.mp hp
+      have hi' := List.mem_range.mp hi
+      exact ⟨i, hi', by rw [getD_of_lt as i default hi']⟩
+    have hLsum : ∀ g : AssetProblem → Vec → Rat,
+        (L.map fun p => g p.1 p.2) = (List.range as.length).map fun i => g (as.getD i default) (ys i) := by
+      intro g; simp [L, List.map_map, Function.comp_def]
+    have hG := glue_feasible L gridI skip (by rw [hmap]; exact hl) (by rw [hmap]; exact hdisp)
+      (by rw [hmap]; exact hcols) (by rw [hmap]; exact hvars)
+      (by
+        intro p hp
+        obtain ⟨i, hi, rfl⟩ := hLmem p hp
+        exact (hys i hi).1)
+      (by
+        intro n hs t
+        rw [hLsum (fun a y => flowOf a n t y)]
+        have := hbal n hs t
+        rw [hlen] at this
+        rw [← this]
+        show sumN _ _ = sumN _ _
+        apply sumN_congr
+        intro i hi
+        rw [(hys i hi).2.2.1 n t, getD_of_lt as i default hi])
+    have hblock : ∀ i (hi : i < as.length) k, k < (as[i]).n → glue L (blockOffset as i + k) = ys i k := by
+      intro i hi k hk
+      have hiL : i < L.length := by omega
+      have h1 := glue_block L i hiL k (by rw [hLi i hiL, getD_of_lt as i default hi]; exact hk)
+      rw [hmap, hLi i hiL] at h1
+      exact h1
+    rw [hmap] at hG
+    obtain ⟨h1, h2, h3⟩ := hG
+    refine ⟨glue L, ?_, ?_, ?_⟩
+    · rw [feasible_bool_iff as gridI skip hrange]
+      refine ⟨h1, fun i hi k hk => ?_⟩
+      obtain ⟨m, hm, hv⟩ := mem_bvars_var _ k hk
+      have hkn : k < (as[i]).n := by rw [← hv]; exact hrange _ (List.getElem_mem hi) m hm
+      rw [hblock i hi k hkn]
+      exact (hys i hi).2.1 k hk
+    · rw [h2, hLsum (fun a y => - costAt a.c 0 y), hlen]
+      apply sumN_le
+      intro i hi
+      rw [getD_of_lt as i default hi]
+      exact (hys i hi).2.2.2
+    · intro i hi n t
+      have := h3 n t
+      rw [hLlen, hLsum (fun a y => flowOf a n t y)] at this
+      have h4 := (List.map_inj_left.mp this) i (List.mem_range.mpr hi)
+      rw [h4, (hys i hi).2.2.1 n t, getD_of_lt as i default hi]
+
+end EAO.Textbook
